@@ -58,6 +58,9 @@ def run(ctx):
             sysmon.feed(ctx, res, findings, f'system response-file scenarios {os.path.basename(cc)}')
             res = sysmon.st.run_side_outputs(sysmon.sysroot(ctx, 'c01'), 'c01s' + os.path.basename(cc), cc)
             sysmon.feed(ctx, res, findings, f'system side-output scenarios {os.path.basename(cc)}')
+            res = sysmon.st.run_special_outputs(sysmon.sysroot(ctx, 'c01'), 'c01d' + os.path.basename(cc), cc)
+            if res['requests']: sysmon.feed(ctx, res, findings, f'system special-output scenario {os.path.basename(cc)}')
+            else: ctx.notes.append('special-output scenario skipped: ' + str(res.get('skipped')))
             res = sysmon.st.run_extra_files(sysmon.sysroot(ctx, 'c01'), 'c01x' + os.path.basename(cc), cc)
             if res['requests']: sysmon.feed(ctx, res, findings, f'system list-file scenarios {os.path.basename(cc)}')
             for dm in (True, False):
